@@ -261,6 +261,69 @@ pub fn run(cfg: &RunCfg) -> CheckReport {
             return rep;
         }
     }
+    // enumerated rich corpus: lines "w atom w LF" in a two-line context, so that replaced lines
+    // are similar enough for the inline diff to run
+    let atoms = super::richtext::atoms();
+    let mut rich: Vec<Vec<u8>> = vec![];
+    for a in atoms.iter().step_by(cfg.tier.pick(2, 1)) {
+        for shape in 0..3 {
+            let mut t = b"k x\n".to_vec();
+            match shape {
+                0 => {
+                    t.extend_from_slice(b"w ");
+                    t.extend_from_slice(a);
+                    t.extend_from_slice(b" z\n");
+                }
+                1 => {
+                    t.extend_from_slice(a);
+                    t.extend_from_slice(b" w z\n");
+                }
+                _ => {
+                    t.extend_from_slice(b"w z ");
+                    t.extend_from_slice(a);
+                }
+            }
+            rich.push(t);
+        }
+    }
+    rich.sort();
+    rich.dedup();
+    let ex = explore(cfg, rich.len(), |shard, acc| {
+        let old = &rich[shard];
+        for new in &rich {
+            match check_pair(old, new) {
+                Ok((nt, n, fp)) => {
+                    if acc.want_sample() {
+                        acc.sample(text_case(old, new));
+                    }
+                    acc.ok(nt, n, fp);
+                }
+                Err(e) => acc.violation(|| (text_case(old, new), e)),
+            }
+            if acc.stop() {
+                return;
+            }
+        }
+    });
+    rep.part("rich-corpus", json!({"texts": rich.len(), "note": "enumerated family: a line containing each rich atom (other scripts, ZWJ emoji, separators, invalid bytes) in three positions"}), ex);
+    if rep.has_violation() {
+        return rep;
+    }
+    let inputs = super::large::all(cfg.tier, cfg.seed);
+    let pairs = super::richtext::long_pairs(&inputs, cfg.tier.pick(60, 130));
+    let ex = explore(cfg, pairs.len(), |shard, acc| {
+        let (name, old, new) = &pairs[shard];
+        match check_pair(old.as_bytes(), new.as_bytes()) {
+            Ok((nt, n, fp)) => {
+                if shard % 53 == 0 {
+                    acc.sample(json!({"long_text_pair": name}));
+                }
+                acc.ok(nt, n, fp);
+            }
+            Err(e) => acc.violation(|| (text_case(old.as_bytes(), new.as_bytes()), format!("{}: {}", name, e))),
+        }
+    });
+    rep.part("long-texts", json!({"pairs": pairs.len(), "note": "enumerated family: long line texts (1-5 words per line, LF / CRLF / CR) derived from the large sequence inputs"}), ex);
     rep
 }
 
